@@ -72,6 +72,10 @@ def build(run):
         ("restricted", (f * g)("+") * u("-")[0]), ("grad under restriction", grad(f)("+")[i] * u("+")[i]),
         ("with argument", f * tf * grad(tf)[i] * u[i]), ("constant", c0 * f * f), ("div", div(u * f)), ("nested grad", grad(grad(f))[i, i] * g),
         ("exp sin", exp(f) * sin(g) + f), ("vector expr", as_vector([f, g])[i] * u[i]),
+        # variables: replace keeps labels, so an expression combined with its own image holds two variables with one label
+        ("two variables sharing a label", C.Variable(f * f, C.Label(21001)) * g + sin(C.Variable(g * f, C.Label(21001)))),
+        ("expression plus its own image under f->h", (lambda e_: e_ + replace(e_, {f: h}))(ufl.variable(f) ** 2 * g + sin(ufl.variable(f * g)))),
+        ("variable of a variable", ufl.variable(ufl.variable(f) * g) * f),
     ]
     maps = {
         "f->h": {f: h}, "f->g*h": {f: g * h}, "f->0": {f: C.Zero()}, "f->2.5": {f: 2.5}, "u->w": {u: w_}, "u->f*w": {u: f * w_},
